@@ -8,7 +8,7 @@ from tartiflette.resolver.default import gather_arguments_coercer, sync_argument
 
 META = {
     "bounds": "<= 5 suspending resolvers / argument hooks per request (<= 120 completion orders, every one explored), 8 engine configurations "
-              "(coerce_list_concurrently x coerce_parent_concurrently x arguments coercer gather/sync) + per-field overrides; 5 gate layouts incl. failing non-null leaves and a list of non-null items with two failing items",
+              "(coerce_list_concurrently x coerce_parent_concurrently x arguments coercer gather/sync) + per-field overrides; 6 gate layouts incl. a TypeError raised inside resolvers that accept **kwargs, failing non-null leaves and a list of non-null items with two failing items",
     "outside": "more than 5 simultaneously pending resolvers; interleavings inside asyncio's own callbacks (between two gate releases the engine is deterministic)",
     "explanation": "MiniLoop releases pending resolver gates in a solver-chosen order; the response must equal the FIFO/default-configuration response.",
 }
@@ -36,6 +36,8 @@ async def universal(parent, args, ctx, info):
         await miniloop.gate(p)
     LOG.append(("end", p))
     if p in FAULTS:
+        if FAULTS[p] == "type":
+            raise TypeError("unsupported operand")       # the kind of exception a bug in user code raises (None + 1)
         raise ValueError("boom")
     if info.field_name == "sum":
         return (args.get("a") or 0) * 10 + (args.get("b") or 0)
@@ -59,11 +61,18 @@ for _i, (_lc, _pc, _ac) in enumerate(CONFIGS):
     Directive("g", schema_name=_name)(G())
     ENGS.append(build(SDL, _name, custom_default_resolver=universal, query_cache_decorator=DictCache(), coerce_list_concurrently=_lc,
                       coerce_parent_concurrently=_pc, custom_default_arguments_coercer=[gather_arguments_coercer, sync_arguments_coercer][_ac]))
+async def kw_resolver(parent, args, ctx, info, **kwargs):
+    """a resolver written with a catch-all keyword parameter (as a forwarding decorator would be)"""
+    return await universal(parent, args, ctx, info)
+
+
 # per-field overrides on top of the default engine
 Directive("g", schema_name="c08_ov")(G())
 Resolver("Query.mids", schema_name="c08_ov", list_concurrently=False)(universal)
 Resolver("Query.mid", schema_name="c08_ov", parent_concurrently=False)(universal)
 Resolver("Query.sum", schema_name="c08_ov", arguments_coercer=sync_arguments_coercer)(universal)
+Resolver("Query.m2", schema_name="c08_ov")(kw_resolver)
+Resolver("Leaf.n", schema_name="c08_ov")(kw_resolver)
 ENGS.append(build(SDL, "c08_ov", custom_default_resolver=universal, query_cache_decorator=DictCache()))
 
 # the list sub-selection carries collection-time directives (@include / @skip: their arguments are coerced while the fields are collected,
@@ -77,6 +86,7 @@ LAYOUTS = {
     "args": ([("arg", "a"), ("arg", "b"), ("n",), ("mid",)], []),
     "fault": ([("n",), ("mid", "leaf", "n"), ("mid", "leaves", 0, "n"), ("mid", "leaves", 1, "n"), ("m2", "leaf", "n")], [("mid", "leaf", "n")]),
     "nnlist": ([("m2", "nnl", 0, "n"), ("m2", "nnl", 1, "n"), ("m2", "nnl", 2, "n"), ("n",)], [("m2", "nnl", 0, "n"), ("m2", "nnl", 2, "n")]),
+    "typeerr": ([("n",), ("m2",), ("mid", "leaf", "n"), ("mids", 0, "n")], {("m2",): "type", ("mid", "leaf", "n"): "type"}),
     "fault2": ([("mid",), ("m2", "leaf", "n"), ("mid", "leaves", 1, "n"), ("sum",)], [("m2", "leaf", "n"), ("mid", "leaves", 1, "n")]),
 }
 
@@ -87,7 +97,7 @@ def run(eng, layout, chooser):
     for g in gates:
         GATES[g] = True
     for f in faults:
-        FAULTS[f] = True
+        FAULTS[f] = faults[f] if isinstance(faults, dict) else True
     loop = miniloop.MiniLoop(chooser=chooser, max_steps=200000)
     ok, resp = safe(lambda: loop.run_until_complete(eng.execute(Q, initial_value=DATA)))
     return ok, resp, loop, list(LOG)
@@ -135,7 +145,7 @@ def well_behaved(loop, log):
 
 
 @obligation(tier="quick", timeout=300, shards=[{"cfg": c, "layout": l} for l in LAYOUTS for c in range(len(ENGS))],
-            quick_shards=[0, 3, 8, 9 + 1, 9 + 6, 18, 18 + 2, 18 + 8, 27, 27 + 5, 27 + 8, 36, 36 + 4],
+            quick_shards=[0, 3, 8, 9 + 1, 9 + 6, 18, 18 + 2, 18 + 8, 27, 27 + 5, 27 + 8, 36, 36 + 8, 45, 45 + 4],
             samples=[{"c0": 0, "c1": 0, "c2": 0, "c3": 0, "c4": 0}, {"c0": 3, "c1": 1, "c2": 2, "c3": 0, "c4": 1}],
             symbolic=["c0..c4: which pending resolver completes next (the completion order)"],
             selectors=["shard: engine configuration (9), gate layout (4)"],
